@@ -5,13 +5,14 @@
    its FIN, if any, sits at one fixed offset (PeerData).  Application reads, writes, close and timer polls interleave.
    Every labelled transition is exported (ACTION_CONSTRAINT Edge) and replayed on a real listening socket. *)
 EXTENDS TcpModel, Json
-CONSTANTS L, PeerData, Steps, SendB
+CONSTANTS L, PeerData, Steps, SendB, Connector   \* Connector = TRUE: the socket connects (starts in SYN-SENT) instead of listening
 VARIABLES steps, outs, last
 pvars == <<ep, net, drops, dups, wr, rd, got, closedAt, rtos, hang, sentBad, steps, outs, last>>
 
 PeerFinSeq == ISS("A") + 1 + PeerData
 PInit ==
-  /\ ep = [e \in EP |-> IF e = "B" THEN [InitEp(e) EXCEPT !.st = "Listen", !.listen = TRUE] ELSE InitEp(e)]
+  /\ ep = [e \in EP |-> IF e = "B" THEN (IF Connector THEN [InitEp(e) EXCEPT !.st = "SynSent", !.tuple = TRUE, !.una = ISS(e), !.nxt = ISS(e)]
+                                                          ELSE [InitEp(e) EXCEPT !.st = "Listen", !.listen = TRUE]) ELSE InitEp(e)]
   /\ net = {} /\ drops = 0 /\ dups = 0
   /\ wr = [e \in EP |-> 0] /\ rd = [e \in EP |-> 0]
   /\ got = [e \in EP |-> {}] /\ closedAt = [e \in EP |-> None]
@@ -21,12 +22,13 @@ RcvNxtB == ep["B"].rseq + ep["B"].rxLen
 EdgeB == IF ep["B"].lastAck = None THEN RcvNxtB ELSE ep["B"].lastAck + ep["B"].lastWin
 PeerSegs ==
   LET sB == ep["B"]
-      seqs == IF sB.st = "Listen" THEN {ISS("A")}
+      seqs == IF sB.st \in {"Listen", "SynSent"} THEN {ISS("A")}
               ELSE {q \in {RcvNxtB - 1, RcvNxtB, RcvNxtB + 1, EdgeB - 1, EdgeB, EdgeB + 1} : q >= ISS("A") + 1}
-      acks == IF sB.st = "Listen" THEN {None} ELSE {None, sB.una, sB.nxt, sB.nxt + 1}
+      acks == IF sB.st = "Listen" THEN {None} ELSE IF sB.st = "SynSent" THEN {None, sB.una, sB.una + 1, sB.una + 2} ELSE {None, sB.una, sB.nxt, sB.nxt + 1}
   IN { g \in [src : {"A"}, seq : seqs, ack : acks, ctl : {"none", "fin", "rst", "syn"}, win : {0, 2}, len : 0..L] :
          /\ (g.ctl = "syn" => g.len = 0 /\ g.seq = ISS("A"))
          /\ (g.ctl # "syn" => g.seq + g.len <= PeerFinSeq)
+         /\ (sB.st = "SynSent" => g.len = 0 /\ g.ctl # "fin")
          /\ (g.ctl = "fin" => g.seq + g.len = PeerFinSeq)
          /\ (sB.st = "Listen" => g.ctl = "syn") }
 
@@ -87,7 +89,7 @@ AckSafe == \A i \in 1..Len(outs) : outs[i].ack # None =>
    LET dataHi == outs[i].ack - 1 - (IF outs[i].ack - 1 = PeerFinSeq THEN 1 ELSE 0) IN \A q \in (ISS("A") + 1)..dataHi : q \in got["B"]
 PDeadline == (ep["B"].tuple /\ Unacked("B")) => PollAtOn("B", ep["B"]) # "none"
 \* C17 on the model: the edge taken is one of the diagram's
-AllowedEdges == { <<"Closed","Listen">>, <<"Listen","SynReceived">>, <<"SynReceived","Established">>, <<"SynReceived","CloseWait">>,
+AllowedEdges == { <<"Closed","Listen">>, <<"SynSent","Established">>, <<"SynSent","SynReceived">>, <<"Listen","SynReceived">>, <<"SynReceived","Established">>, <<"SynReceived","CloseWait">>,
   <<"SynReceived","Listen">>, <<"SynReceived","FinWait1">>, <<"Established","CloseWait">>, <<"Established","FinWait1">>,
   <<"FinWait1","FinWait2">>, <<"FinWait1","Closing">>, <<"FinWait1","TimeWait">>, <<"FinWait2","TimeWait">>, <<"Closing","TimeWait">>,
   <<"CloseWait","LastAck">>, <<"LastAck","Closed">>, <<"TimeWait","Closed">> }
